@@ -43,11 +43,14 @@ func (c *MJImageComponent) Render(w io.StringWriter) error {
 	title := c.GetAttributeWithDefault(c, constants.MJMLTitle)
 
 	widthAttr := c.GetAttribute("width")
-	width := ""
+	width := c.calculateDefaultWidth()
 	if widthAttr != nil && *widthAttr != "" {
-		width = *widthAttr
-	} else {
-		width = c.calculateDefaultWidth()
+		// An explicit pixel width is limited to the space the container leaves (MJML: the smaller of the two)
+		explicit, errE := styles.ParsePixel(*widthAttr)
+		available, errA := styles.ParsePixel(width)
+		if errE != nil || explicit == nil || errA != nil || available == nil || explicit.Value <= available.Value {
+			width = *widthAttr
+		}
 	}
 	containerBackground := c.GetAttributeWithDefault(c, constants.MJMLContainerBackgroundColor)
 	fluidOnMobile := c.GetAttributeWithDefault(c, "fluid-on-mobile")
